@@ -77,13 +77,21 @@ Theorem C18_angular_range : forall l : list xv,
 Proof. exact angular_range. Qed.
 Print Assumptions C18_angular_range.
 
-(* the code-faithful model of _encompassing_sector_size_np (sort, adjacent differences folded at 180, argmax,
-   rotation to the bounding angle, the `<= 2 distinct angles` shortcut) equals 360 minus the largest gap between
-   circularly adjacent directions:  sector_spec l = 360 - max (cgaps (sort (map (mod 360) l))) *)
+(* the code-faithful model of _encompassing_sector_size_np (as repaired in /repo abf9f57: sort, gaps = (rolled - data) % 360,
+   360 - largest gap, 0 when all directions coincide) equals 360 minus the largest gap between circularly adjacent
+   directions:  sector_spec l = 360 - max (cgaps (sort (map (mod 360) l))) *)
 Theorem C18_sector_code_eq_spec : forall l : list Q, l <> [] ->
   sector_x false (fins l) =x= XFin (360 - qmax_list (cgaps (qsort (map qmod360 l)))).
 Proof. exact sector_code_eq_spec. Qed.
 Print Assumptions C18_sector_code_eq_spec.
+
+(* the routine as it was BEFORE the repair (adjacent differences folded at 180, argmax, rotation to the bounding angle,
+   `max_of_rotated == second` test, `<= 2 distinct angles` shortcut; proofs/C18_mod.v: sector_core_v1) computes the same
+   value in exact arithmetic: its defect (finding sector-near-duplicate-angles) was the floating-point comparison only *)
+Theorem C18_sector_prerepair_routine_exact : forall d : list Q, d <> [] -> qsorted d -> in_range d ->
+  sector_core_v1 d == 360 - qmax_list (cgaps d).
+Proof. exact sector_core_v1_spec. Qed.
+Print Assumptions C18_sector_prerepair_routine_exact.
 
 (* ... which is the smallest arc that starts at one of the directions and covers all of them
    (cw p q = (q - p) mod 360 is the anticlockwise distance from p to q) *)
